@@ -40,7 +40,7 @@ def CmpSymStmt (C : Type) (fo : FloatOps F) (τ : NodeType) (n : String) (op : O
 macro "cmp_unfold" : tactic => `(tactic|
   simp_all [CmpSymStmt, okCmp, cmpType, symNode, litNode, getTypedExpr, handleStringOps, TNode.symName?,
       TNode.isStringNode, TNode.isInt64Node, TNode.isFloat64Node, TNode.isDatetimeNode,
-      TNode.getType, TNode.isBoolNode, upperNode, toFloat64, isSeekableOp, TNode.isConst])
+      TNode.getType, TNode.isBoolNode, upperNode, toFloat64, isSeekableOp, TNode.seekableStr, TNode.isStrSym, TNode.isConst])
 
 macro "sem_simp" : tactic => `(tactic|
   simp_all [bne, boolOperandNil, withNull, strCmp, ordCmp, cmpWith, binStrSem, binOrdSem, binBoolSem, nilRule, isNilSem,
@@ -62,6 +62,7 @@ macro "cmp_finish" fo:term:max n:term:max : tactic => `(tactic|
       | (cases hx : (lk $n).toTime <;> sem_simp; done)
       | (cases hx : (lk $n).toBool <;> sem_simp; done)))
 
+set_option maxHeartbeats 1600000 in
 theorem cmp_sym_str (fo : FloatOps F) (n : String) (op : Op) (r : Lit F)
     (h : okCmp .str true op r = true) : CmpSymStmt C fo .str n op r := by
   cases op <;> cases r <;> cmp_unfold <;> cmp_finish fo n
@@ -104,7 +105,7 @@ theorem cmp_sym (fo : FloatOps F) (τ : NodeType) (hτ : τ ≠ .other) (n : Str
 
 /-- a count node: `CountSetExprNode` without or with a sub-query -/
 def IsCountNode (s : TNode F) : Prop :=
-  (∃ n, s = .count n) ∨ (∃ n q sk li, s = .countQ n q sk li)
+  (∃ n, s = .count n) ∨ (∃ n q so sk li, s = .countQ n q so sk li)
 
 set_option maxHeartbeats 1600000 in
 theorem cmp_cnt (fo : FloatOps F) (s : TNode F) (hs : IsCountNode s) (op : Op) (r : Lit F)
@@ -113,10 +114,10 @@ theorem cmp_cnt (fo : FloatOps F) (s : TNode F) (hs : IsCountNode s) (op : Op) (
       (∀ (w : World C F) c lk k, evalInt w fo c lk s = some k →
         evalBool w fo c lk p = satCmp fo .int op (.int64 k) r) ∧
       (∀ op' l' r', p = .binStr op' l' r' → isSeekableOp op' l' r' = false) := by
-  rcases hs with ⟨n, rfl⟩ | ⟨n, q, sk, li, rfl⟩ <;> cases op <;> cases r <;>
+  rcases hs with ⟨n, rfl⟩ | ⟨n, q, so, sk, li, rfl⟩ <;> cases op <;> cases r <;>
     simp_all [okCmp, cmpType, litNode, getTypedExpr, handleStringOps, TNode.symName?,
       TNode.isStringNode, TNode.isInt64Node, TNode.isFloat64Node, TNode.isDatetimeNode,
-      TNode.getType, TNode.isBoolNode, upperNode, toFloat64, isSeekableOp, TNode.isConst] <;>
+      TNode.getType, TNode.isBoolNode, upperNode, toFloat64, isSeekableOp, TNode.seekableStr, TNode.isStrSym, TNode.isConst] <;>
     (try (intro w c lk k hk)) <;>
     simp_all [bne, boolOperandNil, withNull, strCmp, ordCmp, cmpWith, binStrSem, binOrdSem, binBoolSem, nilRule, isNilSem,
       evalBool, evalStr, evalInt, evalFloat, evalTime, satCmp, cmpType, readStr, readFloat,
@@ -188,7 +189,7 @@ theorem in_cnt (fo : FloatOps F) (s : TNode F) (hs : IsCountNode s) (arr : Arr F
       (∀ (w : World C F) c lk k, evalInt w fo c lk s = some k →
         evalBool w fo c lk p = satIn fo .int (.int64 k) arr) ∧
       (∀ op' l' r', p ≠ .binStr op' l' r') := by
-  rcases hs with ⟨n, rfl⟩ | ⟨n, q, sk, li, rfl⟩ <;>
+  rcases hs with ⟨n, rfl⟩ | ⟨n, q, so, sk, li, rfl⟩ <;>
   (cases arr with
   | strs ss =>
     simp_all [okIn, arrDen, inTypedExpr, TNode.isStringNode, TNode.isInt64Node,
@@ -239,7 +240,7 @@ theorem bet_cnt (fo : FloatOps F) (s : TNode F) (hs : IsCountNode s) (lo hi : Li
       (∀ (w : World C F) c lk k, evalInt w fo c lk s = some k →
         evalBool w fo c lk p = satBetween fo .int (.int64 k) lo hi) ∧
       (∀ op' l' r', p ≠ .binStr op' l' r') := by
-  rcases hs with ⟨n, rfl⟩ | ⟨n, q, sk, li, rfl⟩ <;> cases lo <;> cases hi <;>
+  rcases hs with ⟨n, rfl⟩ | ⟨n, q, so, sk, li, rfl⟩ <;> cases lo <;> cases hi <;>
     simp_all [okBetween, isNumLit, litNode, betweenTypedExpr, asFloat64Node, TNode.isStringNode,
       TNode.isInt64Node, TNode.isFloat64Node, TNode.isDatetimeNode, TNode.isBoolNode, toFloat64] <;>
     intro w c lk k hk <;>
